@@ -137,8 +137,43 @@ def eval_model(rows, run_fn="check_case"):
 def run(tier, replay):
     V = vlib.Verdict(PROP, tier)
     wd = vlib.workdir(PROP)
-    (binp,) = vlib.build_harness(["c09"])
+    (binp, binf) = vlib.build_harness(["c09", "c09f"])
     proof = vlib.proof_stage(PROP, V, "props/C09.v")
+
+    # ---- "JSON-RPC request bodies on both listeners": the foreign listener's handler object on a real wallet,
+    # valid requests of every method, their single-field mutations, text-layer junk, random bytes — no panic
+    foreign_rows = []
+    freplay = None
+    if replay:
+        rj = json.load(open(replay))
+        if "foreign_post" in rj:
+            freplay = os.path.join(wd, "foreign_replay.json")
+            json.dump(rj["foreign_post"], open(freplay, "w"))
+    if not replay or freplay:
+        fout = os.path.join(wd, "foreign.jsonl")
+        fargs = [binf, "--out", fout] + (["--replay", freplay] if freplay else ["--budget", "60" if tier == "quick" else "400"])
+        rc_f, log_f = vlib.sh(fargs, timeout=1500)
+        if rc_f != 0 or not os.path.exists(fout):
+            raise vlib.Infra("c09f (foreign listener) failed: " + log_f[-1500:])
+        foreign_rows = [json.loads(l) for l in open(fout)]
+        seen_f = set()
+        for r in foreign_rows:
+            if r["panic"] is not None:
+                key = (r["method"], r["panic"][:60])
+                if key in seen_f or len(seen_f) >= 3:
+                    continue
+                seen_f.add(key)
+                V.violation({"property": PROP, "kind": "oracle",
+                             "what": ["a request body on the foreign listener (%s, %s) made the handler panic: %s"
+                                      % (r["method"], r["case"], r["panic"][:200])],
+                             "decoder": "ForeignAPIHandlerV2::post", "foreign_post": {"method": r["method"], "in": r["in"]},
+                             "body": bytes.fromhex(r["in"]).decode("utf-8", "replace")[:600],
+                             "replay_cmd": "./check C09 --replay <this file>"})
+    if freplay:
+        cov = dict(proof)
+        cov.update({"evaluations": len(foreign_rows), "distinct_nontrivial": len(foreign_rows), "rule": "replay of one foreign-listener POST",
+                    "samples": [], "traces_validated_against_impl": 0})
+        return V.finish(cov, ["replay of one foreign-listener request body"])
     okb, logb = vlib.coq_make(["theories/CodecRun.vo"])   # evaluation entry point (not in the theorems' cone)
     if not okb:
         raise vlib.Infra("CodecRun.v does not build: " + logb[-1500:])
@@ -244,6 +279,9 @@ def run(tier, replay):
         "corpus_cases": n_corpus,
         "divergences": len(divergences),
         "oracle_failures": len(oracle_fail),
+        "foreign_listener_posts": {"posts": len(foreign_rows), "panics": sum(1 for r in foreign_rows if r["panic"] is not None),
+                                   "by_method": dict(collections.Counter(r["method"] for r in foreign_rows)),
+                                   "http_status": dict(collections.Counter(str(r["status"]) for r in foreign_rows))},
         "slowest_call_us": slowest,
         "largest_single_allocation_bytes": peak,
     })
